@@ -144,6 +144,10 @@ func (fr *Frame) havocReachable(a *Val, depth int) {
 		}
 		return
 	}
+	if a.boxed != nil {
+		fr.havocReachable(a.boxed, depth)
+		return
+	}
 	if a.loc != nil && a.t == "" {
 		// interior pointer: the pointed-to location
 		for _, leaf := range leafLocs(a.loc) {
@@ -326,6 +330,15 @@ func (fr *Frame) applyContract(c *Contract, fn *ssa.Function, key string, args [
 			continue
 		}
 		fr.oblige("call-requires", name+"/"+clauseName("requires", i, rq), t)
+	}
+	// termination of (mutual) recursion: the callee's measure is smaller than ours at entry
+	if top := fr.topFrame(); c.Decreases != nil && top.variant0 != "" && top.contract != nil && top.contract.Decreases != nil && fr.eng.recursiveWith(top.key, key) {
+		t, err := fr.evalClauseInt(c.Decreases, &evalCtx{fr: fr, st: fr.st, old: fr.st, names: names, callee: key})
+		if err != nil {
+			fr.stale(name+"/decreases", err)
+		} else {
+			fr.oblige("decreases", name+"/decreases", and(app("<=", "0", top.variant0), app("<", t, top.variant0)))
+		}
 	}
 	// frame
 	fr.havocForCall(c, fn, key, names, pre)
